@@ -29,7 +29,7 @@ TECHNIQUE = "Hypothesis strings -> quote() -> CommandManager.execute round trip;
 LEVEL_TEXT = ("generated-input search: round trip of generated argument strings through quote + full command execution, "
               "and differential test of argument splitting against a reference splitter; not exhaustive")
 LEVEL_NOTE = "trusts taddons.context / CommandManager.add for registering the test commands"
-QUICK_N, THOROUGH_N = 120_000, 4_000_000
+QUICK_N, THOROUGH_N = 100_000, 4_000_000
 BUDGET_S = (300, 7200)
 
 WS = " \t\r\n"
